@@ -155,6 +155,9 @@ func tagsOf(ops []Op, obs []StepObs) []string {
 		if len(o.Tags[NAddr]) > 0 {
 			set["unix-socket"] = true
 		}
+		if o.Stream == 1 {
+			set["stuck-stream"] = true
+		}
 		if len(ops[i].Env.Blocked) > 0 {
 			set["blocked"] = true
 		}
